@@ -349,8 +349,20 @@ fn run_cleanup_case(input: &Value) -> CaseOut {
     };
     // exactly the body of ValidationReport::process, with the cache listed around run.cleanup()
     let report = ValidationReport::new(&config);
-    let mut run = engine.start(&report, inp.last.initial).expect("start");
-    let started_ms = chrono::Utc::now().timestamp_millis();
+    // store::Run::started (taken inside engine.start) has sub-second precision while the LastAttempt times in the
+    // files are whole seconds: start the run away from a second boundary so that the measured start time decides
+    // `when >= started` the same way as the real one
+    let (mut run, started_ms) = loop {
+        loop {
+            let f = chrono::Utc::now().timestamp_subsec_millis();
+            if (20..700).contains(&f) { break }
+            std::thread::sleep(std::time::Duration::from_millis(10));
+        }
+        let t_before = chrono::Utc::now().timestamp_millis();
+        let run = engine.start(&report, inp.last.initial).expect("start");
+        let t_after = chrono::Utc::now().timestamp_millis();
+        if t_before / 1000 == t_after / 1000 { break (run, t_after) }
+    };
     let ok = run.process().is_ok();
     let before = listing(&cache);
     let t0_ms = chrono::Utc::now().timestamp_millis();
